@@ -191,3 +191,109 @@ func ZZ_C06_ReopenProtection() {
 	}
 	zzReach("C06.protection.done")
 }
+
+// Histories through the Server layer (what the REST API and the RPC server call): the
+// Server replaces its Replica instance on revert, reload and close/open.  After every
+// step the directory - opened by a fresh process, without any orderly close of the
+// live one - shows the chain, attributes and data files of the live replica, and the
+// live volume still reads what was written.
+func ZZ_C12_ServerHistory() {
+	k := zzParam("KS", 2)
+	fs := zzInstallFS()
+	ActionChannel = make(chan string, 5)
+	s := &Server{Dir: zzDir, defaultSectorSize: 4096, MonitorChannel: make(chan struct{})}
+	zzAssume(s.Create(zzSize) == nil)
+	zzAssume(s.Open() == nil)
+	zzAssume(s.SetReplicaMode("RW") == nil)
+	model := make([]byte, zzBlocks)
+	write := func(blk int, tag byte) {
+		buf := make([]byte, 4096)
+		buf[0], buf[4095] = tag, tag
+		_, werr := s.WriteAt(buf, int64(blk)*4096)
+		zzAssert(werr == nil, "C12.server.write-failed")
+		model[blk] = tag
+	}
+	write(0, 'A')
+	zzAssume(s.Snapshot("s0", zzNondetBool("user0"), "t") == nil)
+	write(1, 'B')
+	zzAssume(s.Snapshot("s1", zzNondetBool("user1"), "t") == nil)
+	write(0, 'C')
+	snapModel := map[string][]byte{"volume-snap-s0.img": {'A', 0}, "volume-snap-s1.img": {'A', 'B'}}
+	for step := 0; step < k; step++ {
+		if s.r == nil {
+			break
+		}
+		ch, _ := s.r.Chain()
+		name := ch[zzConcretize(zzChoice("name", len(ch)))]
+		var err error
+		opname := ""
+		switch zzConcretize(zzChoice("op", 9)) {
+		case 0:
+			opname = "Snapshot"
+			err = s.Snapshot([]string{"n0", "n1"}[step%2], zzNondetBool("user"), "t")
+		case 1:
+			opname = "Revert"
+			err = s.Revert(name, "t")
+			if err == nil {
+				if m, ok := snapModel[name]; ok {
+					copy(model, m)
+					for i := len(m); i < len(model); i++ {
+						model[i] = 0
+					}
+				} else {
+					model = nil // reverted to a snapshot taken in this loop: image not tracked
+				}
+			}
+		case 2:
+			opname = "RemoveDiffDisk"
+			err = s.RemoveDiffDisk(name)
+			if err == nil {
+				model = nil // data moves only through the (external) coalesce step: not tracked
+			}
+		case 3:
+			opname = "PrepareRemoveDisk"
+			_, err = s.PrepareRemoveDisk(name)
+		case 4:
+			opname = "Resize"
+			err = s.Resize("32K")
+		case 5:
+			opname = "SetCheckpoint"
+			err = s.SetCheckpoint(name)
+		case 6:
+			opname = "SetRebuilding"
+			err = s.SetRebuilding(zzNondetBool("rebuilding"))
+		case 7:
+			opname = "Reload"
+			err = s.Reload()
+		default:
+			opname = "CloseOpen"
+			err = s.Close()
+			if err == nil {
+				err = s.Open()
+				if err == nil {
+					s.SetReplicaMode("RW")
+				}
+			}
+		}
+		if s.r == nil {
+			break
+		}
+		live := zzMemDigest(s.r)
+		zzWellFormed("C12.server.after-"+opname, s.r)
+		// a fresh process opens the directory as it is now (no orderly close happened)
+		fs.Revive()
+		rr, rerr := zzOpenReplica()
+		zzAssert(rerr == nil && rr != nil, "C12.server.directory-does-not-reopen-after-"+opname)
+		if rr != nil {
+			zzAssert(zzSameAttrs(zzMemDigest(rr), live), "C12.server.directory-disagrees-with-live-replica-after-"+opname)
+		}
+		if model != nil {
+			rb := make([]byte, 2*4096)
+			_, rderr := s.ReadAt(rb, 0)
+			zzAssert(rderr == nil, "C12.server.read-failed-after-"+opname)
+			zzAssert(rb[0] == model[0] && rb[4096] == model[1], "C12.server.volume-reads-wrong-data-after-"+opname)
+		}
+		_ = err
+	}
+	zzReach("C12.server.done")
+}
